@@ -1,4 +1,5 @@
 import WebrtcVerif.Base.Wire
+import WebrtcVerif.Drv.C08
 import WebrtcVerif.Drv.C03
 import WebrtcVerif.Drv.C02
 import WebrtcVerif.Drv.C01
@@ -72,6 +73,7 @@ def runLine (toks : List String) : String :=
   | "C01" :: rest => Drv.C01.run rest
   | "C02" :: rest => Drv.C02.run rest
   | "C03" :: rest => Drv.C03.run rest
+  | "C08" :: rest => Drv.C08.run rest
   | _ => "bad-op"
 
 def judgeLine (toks : List String) : String :=
@@ -110,6 +112,7 @@ def judgeLine (toks : List String) : String :=
   | "C01" :: rest => Drv.C01.judge rest out
   | "C02" :: rest => Drv.C02.judge rest out
   | "C03" :: rest => Drv.C03.judge rest out
+  | "C08" :: rest => Drv.C08.judge rest out
   | _ => "bad-judge"
 
 partial def loop (h : IO.FS.Stream) (out : IO.FS.Stream) (f : List String → String) : IO Unit := do
